@@ -567,3 +567,36 @@ Proof.
         destruct (rust_castable rvs); [reflexivity | discriminate].
   - destruct K as [d [_ E]]. rewrite E in Hg. destruct (item_is_empty (IItem d) t); discriminate.
 Qed.
+
+(* ---- `first field result that is not Some(Equal), including None` as a proposition (C04_first_non_equal_field) ---- *)
+Theorem lex_p_first_non_equal :
+  forall (fval : Type) (fpcmp : fval -> fval -> option comparison) (px py : list fval) (x y : fval) (xs ys : list fval),
+    Forall2 (fun a b => fpcmp a b = Some Datatypes.Eq) px py -> fpcmp x y <> Some Datatypes.Eq ->
+    lex_p fpcmp (px ++ x :: xs) (py ++ y :: ys) = fpcmp x y.
+Proof.
+  intros fval fpcmp px py x y xs ys F N. induction F as [|a b px py E F IH]; cbn [app lex_p].
+  - destruct (fpcmp x y) as [[| |]|]; try reflexivity. exfalso. apply N. reflexivity.
+  - rewrite E. exact IH.
+Qed.
+Theorem lex_p_all_equal :
+  forall (fval : Type) (fpcmp : fval -> fval -> option comparison) (xs ys : list fval),
+    Forall2 (fun a b => fpcmp a b = Some Datatypes.Eq) xs ys -> lex_p fpcmp xs ys = Some Datatypes.Eq.
+Proof.
+  intros fval fpcmp xs ys F. induction F as [|a b xs ys E F IH]; cbn [lex_p]; [reflexivity|]. rewrite E. exact IH.
+Qed.
+Theorem spec_pcmp_first_non_equal :
+  forall (fval : Type) (fpcmp : fval -> fval -> option comparison) (it : item) (re : rust_enum) (a b : value fval) (d : data),
+    incomparable_value it a = false -> incomparable_value it b = false ->
+    v_idx a = v_idx b -> variant_of it a = Some d ->
+    (forall px py x y xs ys,
+       project d PartialOrd a = px ++ x :: xs -> project d PartialOrd b = py ++ y :: ys ->
+       Forall2 (fun u v => fpcmp u v = Some Datatypes.Eq) px py -> fpcmp x y <> Some Datatypes.Eq ->
+       spec_pcmp fpcmp it re a b = fpcmp x y) /\
+    (Forall2 (fun u v => fpcmp u v = Some Datatypes.Eq) (project d PartialOrd a) (project d PartialOrd b) ->
+       spec_pcmp fpcmp it re a b = Some Datatypes.Eq).
+Proof.
+  intros fval fpcmp it re a b d Ia Ib E Hd. unfold spec_pcmp. rewrite Ia, Ib, E, Nat.eqb_refl. cbn [orb].
+  rewrite Hd. split.
+  - intros px py x y xs ys Pa Pb F N. rewrite Pa, Pb. apply lex_p_first_non_equal; assumption.
+  - apply lex_p_all_equal.
+Qed.
